@@ -24,6 +24,8 @@ var ErrBlockAdder = errors.New("failed to put block on all destinations")
 type BlockAdder struct {
 	dests     []peer.ID
 	rpcClient *rpc.Client
+	// failed is set once a block could not be put anywhere
+	failed bool
 }
 
 // NewBlockAdder creates a BlockAdder given an rpc client and allocated peers.
@@ -36,6 +38,13 @@ func NewBlockAdder(rpcClient *rpc.Client, dests []peer.ID) *BlockAdder {
 
 // Add puts an ipld node to the allocated destinations.
 func (ba *BlockAdder) Add(ctx context.Context, node ipld.Node) error {
+	// The importer does not check every error we return (i.e.
+	// go-unixfs balanced.Layout when adding the first chunk of a file).
+	// Once a block is lost, make sure the whole operation fails.
+	if ba.failed {
+		return ErrBlockAdder
+	}
+
 	nodeSerial := ipldNodeToNodeWithMeta(node)
 
 	ctxs, cancels := rpcutil.CtxsWithCancel(ctx, len(ba.dests))
@@ -74,6 +83,7 @@ func (ba *BlockAdder) Add(ctx context.Context, node ipld.Node) error {
 	// or when an error happened but it was not an RPC error.
 	// As long as BlockPut worked in 1 destination, we move on.
 	if numErrs == len(ba.dests) || len(successfulDests) == 0 {
+		ba.failed = true
 		return ErrBlockAdder
 	}
 
